@@ -326,6 +326,34 @@ func ruleTimeConservation(w *World, r *Report, pfx string) {
 		n++
 		owner := typeName(fn.Signature.Recv().Type())
 		nP, durP := ssa.Value(fn.Params[1]), ssa.Value(fn.Params[2])
+		// the carried time: the duration-typed field of the estimator that EwmaUpdate (or a helper it
+		// hands the field's address to) stores to - found by what is done with it, not by its name
+		carry := ""
+		if st := structOf(fn.Signature.Recv().Type()); st != nil {
+			for _, g := range sortedFns(w.unit(fn)) {
+				for _, b := range g.Blocks {
+					for _, in := range b.Instrs {
+						if s2, ok := in.(*ssa.Store); ok {
+							if f, ok := fieldOf(s2.Addr); ok && f.Owner == owner {
+								carry = f.Name
+							}
+						}
+						if c, ok := in.(*ssa.Call); ok && g == fn {
+							for _, a := range c.Call.Args {
+								if f, ok := fieldOf(a); ok && f.Owner == owner {
+									if b, ok := st.Field(fieldIndex(st, f.Name)).Type().Underlying().(*types.Basic); ok && b.Info()&types.IsInteger != 0 {
+										carry = f.Name
+									}
+								}
+							}
+						}
+					}
+				}
+			}
+		}
+		if carry == "" {
+			carry = "zDur"
+		}
 		bad := ""
 		sawCarry, sawAdd := false, false
 		w.enumPaths(fn, pathOpts{InlineDepth: 2, Inline: func(_ ssa.CallInstruction, c *ssa.Function) bool { return c.Pkg == w.Decor }}, func(p *Path) {
@@ -338,9 +366,9 @@ func ruleTimeConservation(w *World, r *Report, pfx string) {
 					return false
 				}
 				x, y := p.stripR(Val{add.X, v.F, v.E}), p.stripR(Val{add.Y, v.F, v.E})
-				return (p.loadsField(x, owner, "zDur") && y.V == durP) || (p.loadsField(y, owner, "zDur") && x.V == durP)
+				return (p.loadsField(x, owner, carry) && y.V == durP) || (p.loadsField(y, owner, carry) && x.V == durP)
 			}
-			st := p.storesTo(owner, "zDur")
+			st := p.storesTo(owner, carry)
 			type addCall struct {
 				c  *ssa.Call
 				ev Event
@@ -825,4 +853,14 @@ func checkC20(w *World, r *Report) {
 	checkWaitGroups(w, r, "C20")
 	ruleMedianReadOnly(w, r, "C20")
 	ruleLoopVarCapture(w, r, "C20.LOOPVAR")
+}
+
+
+func fieldIndex(st *types.Struct, name string) int {
+	for i := 0; i < st.NumFields(); i++ {
+		if st.Field(i).Name() == name {
+			return i
+		}
+	}
+	return 0
 }
